@@ -284,11 +284,19 @@ class Case:
     def sets_file(self, pkg):
         used = set()
         body = []
+        groups = {}
         for s in self.P['sets']:
             if s['pkg'] != pkg:
                 continue
             items = [self.item_expr(it, pkg, used) for it in s['items']]
-            body.append('var %s = wire.NewSet(%s)\n' % (s['name'], ', '.join(items)))
+            init = 'wire.NewSet(%s)' % ', '.join(items)
+            g = s.get('grp') or ''
+            if g:
+                groups.setdefault(g, []).append((s['name'], init))
+            else:
+                body.append('var %s = %s\n' % (s['name'], init))
+        for g, lst in groups.items():
+            body.append('var %s = %s\n' % (', '.join(n for n, _ in lst), ', '.join(i for _, i in lst)))
         if not body:
             return None
         return 'package %s\n\n%s%s' % (self.goname(pkg), self.imports(pkg, used, ['"github.com/google/wire"']), '\n'.join(body))
@@ -305,15 +313,22 @@ class Case:
         r = ('(%s)' % ', '.join(res)) if len(res) != 1 else res[0]
         return params, r, res
 
-    def wire_file(self):
-        used = set()
-        body = []
-        for inj in self.P['injs']:
-            params, r, res = self.inj_sig(inj, 'a', used)
-            items = [self.item_expr(it, 'a', used) for it in inj['items']]
-            body.append('func %s(%s) %s {\n\tpanic(wire.Build(%s))\n}\n' % (inj['name'], ', '.join(params), r, ', '.join(items)))
-        return ('//go:build wireinject\n// +build wireinject\n\npackage %s\n\n%s%s'
-                % (self.pkgname, self.imports('a', used, ['"github.com/google/wire"']), '\n'.join(body)))
+    def wire_files(self):
+        """one injector file per distinct inj.file: wire.go, wire_2.go, ..."""
+        out = {}
+        for fno in sorted(set(inj.get('file', 1) for inj in self.P['injs'])):
+            used = set()
+            body = []
+            for inj in self.P['injs']:
+                if inj.get('file', 1) != fno:
+                    continue
+                params, r, res = self.inj_sig(inj, 'a', used)
+                items = [self.item_expr(it, 'a', used) for it in inj['items']]
+                body.append('func %s(%s) %s {\n\tpanic(wire.Build(%s))\n}\n' % (inj['name'], ', '.join(params), r, ', '.join(items)))
+            name = 'wire.go' if fno == 1 else 'wire_%d.go' % fno
+            out[name] = ('//go:build wireinject\n// +build wireinject\n\npackage %s\n\n%s%s'
+                         % (self.pkgname, self.imports('a', used, ['"github.com/google/wire"']), '\n'.join(body)))
+        return out
 
     def drive_file(self, runtime=True):
         used = set()
@@ -371,7 +386,8 @@ class Case:
             sf = self.sets_file(pkg)
             if sf:
                 fs[d + '/sets.go'] = sf
-        fs[self.dir + '/wire.go'] = self.wire_file()
+        for n, txt in self.wire_files().items():
+            fs[self.dir + '/' + n] = txt
         fs[self.dir + '/drive.go'] = self.drive_file(runtime)
         return fs
 
